@@ -5,7 +5,7 @@
 // the DEFAULT when the pattern or the group did not take part, NULL when the text is not a literal of the type, BOOLEAN =
 // the group's existence, TRIM on TEXT, arrays and TIMESTAMPs position by position from their listed groups (a part that is
 // out of range gives no timestamp), never a value from another group or line, never truncated or wrapped.
-// Grid: 23 column definitions over 3 capture patterns, a split pattern and an inline pattern x 65 lines (partial matches,
+// Grid: 29 column definitions over 3 capture patterns, two split patterns and inline patterns (one with the text of a split pattern; columns over groups of two patterns) x 69 lines (partial matches,
 // no match, empty groups, 64-bit extremes and beyond, out-of-range date parts, two matches on one line, surrounding blanks),
 // each line alone and all lines as one file (no value leaks from another line).
 // Also: INTERVAL literals (exactly hours:minutes:seconds), month names in a day / month-name / year TIMESTAMP (only a month
@@ -79,13 +79,22 @@ fn columns() -> Vec<Col> {
         Col { def: "csv[1] => w TEXT, csv[2], csv[3] => v TEXT[]", value: |l| { let f = split_fields(l); let e: Vec<J> = vec![as_text(f.get(2).cloned()), as_text(f.get(3).cloned())]; if e.iter().all(|x| x.is_null()) { J::Null } else { J::Array(e) } } },
         Col { def: "csv[1] => w TEXT, csv[3] => v TEXT", value: |l| as_text(split_fields(l).get(3).cloned()) },
         Col { def: "csv[3] => v TEXT, csv[1] => w TEXT", value: |l| as_text(split_fields(l).get(3).cloned()) },
+        // groups of several patterns in one column: each listed group is looked up in ITS pattern
+        Col { def: "line[1], pad[1] => v TEXT[]", value: |l| { let e = vec![as_text(group(P_MAIN, l, 1)), as_text(group(P_PAD, l, 1))]; if e.iter().all(|x| x.is_null()) { J::Null } else { J::Array(e) } } },
+        Col { def: "pad[1], line[2], line[1] => v TEXT[]", value: |l| { let e = vec![as_text(group(P_PAD, l, 1)), as_text(group(P_MAIN, l, 2)), as_text(group(P_MAIN, l, 1))]; if e.iter().all(|x| x.is_null()) { J::Null } else { J::Array(e) } } },
+        Col { def: "date[1], date[2], date[3], f7[4], f7[5], f7[6] => v TIMESTAMP", value: |l| match (caps(P_DATE, l), caps(r"at ([0-9]+)-([0-9]+)-([0-9]+)T([0-9]+):([0-9]+):([0-9]+)\.([0-9]+)", l)) {
+              (Some(d), Some(t)) => timestamp(&[d[1].clone(), d[2].clone(), d[3].clone(), t[4].clone(), t[5].clone(), t[6].clone()]), _ => J::Null } },
+        // an inline pattern whose text is also the text of a named split pattern is still a pattern of its own: group 1 of its leftmost match
+        Col { def: "'([,;])' => v TEXT", value: |l| as_text(group("([,;])", l, 1)) },
+        Col { def: "'([,;])' => v TEXT DEFAULT 'none'", value: |l| match caps("([,;])", l) { Some(c) => as_text(c[1].clone()), None => json!("none") } },
+        Col { def: "'([,;])' => v BOOLEAN", value: |l| match caps("([,;])", l) { Some(c) => json!(c[1].is_some()), None => J::Null } },
         Col { def: "ymd[1] => w TEXT, ymd[1], ymd[2], ymd[3] => v TIMESTAMP", value: |l| { let f: Vec<String> = { let mut v = vec![l.to_owned()]; v.extend(l.split('/').map(|s| s.to_owned())); v };
               if f.len() < 4 { J::Null } else { timestamp(&[Some(f[1].clone()), Some(f[2].clone()), Some(f[3].clone())]) } } },
     ]
 }
 
 fn definition(col: &str) -> String {
-    format!("CREATE TABLE t(line = '{}', date = '{}', pad = '{}', csv = split ',', f7 = 'at ([0-9]+)-([0-9]+)-([0-9]+)T([0-9]+):([0-9]+):([0-9]+)\\\\.([0-9]+)', ymd = split '/', iv = 'i=(\\\\S*)', dmy = 'on ([0-9]+) ([A-Za-z]+) ([0-9]+)', 'always=(.*)|(.*)' => anchor TEXT DEFAULT 'row', {});",
+    format!("CREATE TABLE t(line = '{}', date = '{}', pad = '{}', csv = split ',', sep = split '([,;])', f7 = 'at ([0-9]+)-([0-9]+)-([0-9]+)T([0-9]+):([0-9]+):([0-9]+)\\\\.([0-9]+)', ymd = split '/', iv = 'i=(\\\\S*)', dmy = 'on ([0-9]+) ([A-Za-z]+) ([0-9]+)', 'always=(.*)|(.*)' => anchor TEXT DEFAULT 'row', {});",
         P_MAIN.replace('\\', "\\\\"), P_DATE.replace('\\', "\\\\"), P_PAD.replace('\\', "\\\\"), col)
 }
 
@@ -108,6 +117,7 @@ fn verif_grid() {
         "at 2020-05-06T07:08:09.5", "at 2020-05-06T07:08:09.123", "at 2020-05-06T07:08:09.999", "at 2020-05-06T07:08:09.1000", "at 2020-05-06T07:08:09.123456", "at 2020-05-06T07:08:09.999999",
         "at 2020-05-06T07:08:09.1000000", "at 2020-05-06T07:08:09.987654321", "at 2020-05-06T07:08:09.4294967297", "at 2020-02-30T07:08:09.1",
         "i=1:2:3", "i=01:02:03:24", "i=10:20:30:40:50:60", "i=01:02:03:", "i=1:2", "i=:1:2", "i=25:61:61", "i=x:1:2", "i=0:0:0",
+        "u=ann n=1 r=1 t=[x]", "d=2021-06-01 at 2020-05-06T17:45:09.5", "d=2021-06-01 17:45:09 at 2020-05-06T01:02:03.5", "retries=3;timeout,4",
         "on 5 Mar 2020", "on 5 Marker 2020", "on 5 Junk 2021", "on 31 dec 1999", "on 1 Decoder 2020", "on 9 Sept 2020", "on 9 September 2020", "on 7 MAY 2020", "on 7 Maybe 2020",
     ];
     let cols = columns();
